@@ -1,6 +1,6 @@
 (* C07 property theorems. This file contains only statements closed by
    [exact lemma] and Print Assumptions. *)
-From V Require Import Common.Base Common.Utf8 C07.LineCol C07.Builder C07.BuilderProofs C07.LineColAux C07.LineColProofs C07.Vlq C07.SpecMap C07.Mappings C07.VlqProofs C07.MappingsProofs C07.FindProofs C07.JoinProofs.
+From V Require Import Common.Base Common.Utf8 C07.LineCol C07.Builder C07.BuilderProofs C07.LineColAux C07.LineColProofs C07.Shift C07.ShiftAux C07.ShiftProofs C07.Vlq C07.SpecMap C07.Mappings C07.VlqProofs C07.MappingsProofs C07.FindProofs C07.JoinProofs.
 
 (* encodeVLQ/DecodeVLQ round trip, every integer, arbitrary trailing bytes *)
 Theorem vlq_roundtrip : forall v rest, DecodeVLQ (encodeVLQ v ++ rest) = Some (v, rest).
@@ -77,3 +77,15 @@ Theorem lineoffset_table_is_spec : forall text off,
   lookup (GenerateLineOffsetTables text) off = Some (linecol_utf16 text off).
 Proof. exact lineoffset_is_spec. Qed.
 Print Assumptions lineoffset_table_is_spec.
+
+(* SourceMapPieces.Finalize applied to a builder-produced mappings string moves
+   exactly the generated columns that lie after a substituted path on the same
+   line, by that path's length difference: every event list sorted within
+   lines, every well-formed shift list (first shift zero, Before/After on one
+   line, Befores strictly increasing) *)
+Theorem finalize_moves_columns : forall sh ops, shifts_wf sh -> ops_wf ops ->
+  exists result, Finalize sh (emit_bytes ops) = Some result /\
+    spec_decode (emit_bytes ops) = Some (abs_of ops 0) /\
+    spec_decode result = Some (map (shift_abs sh) (abs_of ops 0)).
+Proof. exact finalize_decodes_map. Qed.
+Print Assumptions finalize_moves_columns.
